@@ -5,6 +5,8 @@
  * directly.  White-box include of the working tree's file.
  *   R x -> r REVERSE_BYTE(x)      K x -> k so_regularkey(x)      D x -> d so_dummykey(x)      P x -> p GET_PARENT(x)
  *   B lkey size -> b <lkey after HASH_KEY> <bucket>     (HASH_KEY without USE_HASHWORD: lkey &= ~MSB; bucket = lkey % size)
+ *   W cap n     -> w <h->size after each of n puts of distinct keys into a fresh dictionary with hard_max_buckets = cap>
+ *                  (needs the runtime: started on the first W)
  */
 #include <stdint.h>
 #include <stdio.h>
@@ -16,9 +18,12 @@ so_key_t gen_REVERSE_BYTE(so_key_t x)
 }
 
 #ifdef GEN_MAIN
+static int gen_eq(void *a, void *b) { return a == b; }
+static int gen_hashf(void *k) { return (int)(uintptr_t)k; }
 int main(void)
 {
     char line[256];
+    int  inited = 0;
 
     while (fgets(line, sizeof line, stdin)) {
         unsigned long a = 0, b = 0;
@@ -34,6 +39,17 @@ int main(void)
             uint64_t lkey = a;
             HASH_KEY(lkey);
             printf("b %lu %lu\n", (unsigned long)lkey, (unsigned long)(lkey % b));
+        } else if (line[0] == 'W' && sscanf(line + 1, "%lu %lu", &a, &b) == 2) {
+            if (!inited) { if (qthread_initialize() != 0) { printf("w init-failed\n"); continue; } inited = 1; }
+            hard_max_buckets = a;
+            qt_dictionary *d = qt_dictionary_create(gen_eq, gen_hashf, NULL);
+            printf("w");
+            for (unsigned long i = 0; i < b; i++) {
+                qt_dictionary_put(d, (void *)(uintptr_t)(i + 1), (void *)(uintptr_t)(i + 1));
+                printf(" %lu", (unsigned long)d->size);
+            }
+            printf("\n");
+            qt_dictionary_destroy(d);
         } else if (line[0] == 'Q') {
             break;
         }
